@@ -4,7 +4,7 @@
     requests is some sequence of whole QIDFor calls; the interleaved model is
     in MapperConc.v).  Definitions only. *)
 From Coq Require Import NArith String List Bool.
-From P9V Require Import Base.Str gen.ConstGen Fsx.Readdir.
+From P9V Require Import Base.Str gen.ConstGen Fsx.Readdir Fsx.Qid.
 Import ListNotations.
 Open Scope list_scope.
 Open Scope N_scope.
@@ -28,12 +28,12 @@ Record mstate := mkM { m_tbl : list (mkey * N); m_gen : nat -> N }.
 Definition m_init : mstate := mkM [] (fun _ => 0).
 
 (** Mapper.QIDFor: type and version kept; path looked up, else NewPath() = ++uids
-    stored.  (uids is a uint64; 2^64 allocations are out of reach.) *)
+    stored.  uids is a uint64: the increment wraps at 2^64 ([inc64]). *)
 Definition qid_for (s : mstate) (m : mid) (q : qid) : qid * mstate :=
   match tlookup (m, q_path q) (m_tbl s) with
   | Some p => (mkQid (q_type q) (q_version q) p, s)
   | None =>
-      let p := m_gen s (fst m) + 1 in
+      let p := inc64 (m_gen s (fst m)) in
       (mkQid (q_type q) (q_version q) p,
        mkM (((m, q_path q), p) :: m_tbl s) (fun g => if Nat.eqb g (fst m) then p else m_gen s g))
   end.
